@@ -814,3 +814,53 @@ def l9(cx):
                  bad_detail=(f"element {differ[0][0]}: the handle reads {differ[0][1]!r}, the view rebuilt from (buffer, offset) reads {differ[0][2]!r} ({len(differ)} of 6 differ): what the handle caches for its own class is not what the header / offset table taken over from the source says" if differ else ""),
                  anchor="array::Array._to_buffer", sub=where + ".handle-view")
     cx.floor(12, "sibling-class value cases")
+
+
+@rule("UI", ["C19", "C01"], "a struct built on memory that was used before: every field left out of the arguments is written by the constructor (nothing of the previous content of the region is read back)")
+def ui(cx):
+    """`to_dict` leaves out the fields that equal their default and `from_dict` relies on the CONSTRUCTOR to restore
+    them; a constructor restores a field only if it writes it.  A struct S{k, table: Float64[4], p: P{u, v}, tag} is
+    built from arguments that name `k` only (and from none at all), at the place of an earlier object whose words are
+    known non-zero numbers (an explicit integer `_offset`, or equally a freed region handed out again).  Read through a
+    fresh view, no leaf of the new object may read one of the earlier object's numbers: that would be memory the
+    constructor did not write.  (What the written default IS -- zero, the declared default -- is decided by HX / J*.)"""
+    m = cx.m
+    for _mod in ('struct', 'array', 'scalar', 'typeutils'):
+        m.mod(_mod)
+    m.func("struct::Struct._to_buffer")
+    m.func("array::Array._to_buffer")
+    n = 0
+    for label, kw in (("S(k=0.5)", {"k": 0.5}), ("S()", {}), ("S(k=0.5, p={'u': 1.5})", {"k": 0.5, "p": {"u": 1.5}})):
+        ow = ObjWorld(m)
+        I = ow.I
+        out = {}
+        poison = [11.0, 12.0, 13.0, 14.0, 15.0, 16.0, 17.0, 18.0]
+
+        def thunk():
+            F = I.global_lookup("scalar", "Float64")
+            A4 = ow.lab.array("Arr4Float64", [4], (0,), F)
+            Old = ow.lab.struct("Old", [(f"a{i}", F) for i in range(8)])  # (scalar fields: each word is a tracked store)
+            Pc = ow.lab.struct("P", [("u", F), ("v", F)])
+            S = ow.lab.struct("S", [("k", F), ("table", A4), ("p", Pc), ("tag", F)])
+            old = I.call(Old, [], dict({f"a{i}": v for i, v in enumerate(poison)}, _buffer=ow.buf("A")))
+            s = I.call(S, [], dict(kw, _buffer=ow.buf("A"), _offset=I.getattr(old, "_offset")))
+            view = ow.fresh(s)
+            out["got"] = {p: v for p, _, v in ow.walk(view, "") if not p.endswith("#")}
+
+        try:
+            res = I.explore(thunk, max_paths=4)
+        except _Bad as e:
+            raise AnalysisError(f"[UI] {label}: the new object cannot be read back: {e}")
+        if len(res) != 1:
+            raise AnalysisError(f"[UI] {label}: {len(res)} evaluation paths")
+        if res[0]["exc"] is not None:
+            e = res[0]["exc"]
+            raise AnalysisError(f"[UI] {label} on used memory cannot be evaluated: {e.etype}: {e.msg}")
+        n += 1
+        given = {".k"} | ({".p.u"} if "p" in kw else set())
+        stale = [(k, v) for k, v in sorted(out["got"].items()) if k not in given and any(I._eq(v, p) is True for p in poison)]
+        cx.need(len(out["got"]) == 8, f"[UI] {label}: {len(out['got'])} leaves read, expected 8")
+        cx.check(not stale, None, construct=f"{label} at the place of an earlier object of eight numbers 11.0 .. 18.0", detail="every leaf that the arguments leave out is written by the constructor: none reads a number of the earlier object",
+                 bad_detail=(f"{stale[0][0]} reads {stale[0][1]!r}, a word of the object that lay there before ({len(stale)} leaves do): the field is left out of the arguments and the constructor does not write it -- from_dict of a dictionary in which to_dict elided the field (equal to its default) rebuilds another object when the memory was used before" if stale else ""),
+                 anchor="struct::Struct._to_buffer", sub="stale")
+    cx.floor(3, "constructions on used memory")
